@@ -239,6 +239,18 @@ pub fn run_obs(args: &[String]) -> i32 {
     // thread -- too deeply nested terms of every container kind, truncations of every vector, size fields that promise
     // more than there is -- every vector must decode to what it decoded to before
     if opts["history"].as_bool().unwrap_or(false) {
+        // probes near the accepted nesting depth (whatever their outcome is before, it must be the same after)
+        let probes: Vec<Vec<u8>> = [200usize, 250, 254, 255, 256].iter().flat_map(|&d| {
+            let mut l = vec![131u8];
+            for _ in 0..d { l.extend_from_slice(&[108, 0, 0, 0, 1]); }
+            l.push(106);
+            for _ in 0..d { l.push(106); }
+            let mut t = vec![131u8];
+            for _ in 0..d { t.extend_from_slice(&[104, 1]); }
+            t.push(106);
+            vec![l, t]
+        }).collect();
+        let probe_first: Vec<(Value, Value)> = probes.iter().map(|b| (obs_owned(b), if do_borrowed { obs_borrowed(b) } else { Value::Null })).collect();
         let first: Vec<(Value, Value)> = vectors.iter().map(|rec| { let b = bytes_of(&rec["enc"]); (obs_owned(&b), if do_borrowed { obs_borrowed(&b) } else { Value::Null }) }).collect();
         let mut rejected = 0u64;
         let mut feed = |inp: &[u8]| {
@@ -276,6 +288,17 @@ pub fn run_obs(args: &[String]) -> i32 {
                     feed(&m);
                 }
             }
+            // input that ends right after a tag, after a tag and one byte, ...: at the top and one level down, for every tag byte
+            for t in 0..=255u8 {
+                for tail in [&[][..], &[0][..], &[0, 0][..], &[0, 0, 0, 1][..]] {
+                    let mut x = vec![131, t];
+                    x.extend_from_slice(tail);
+                    feed(&x);
+                    let mut y = vec![131, 104, 2, 97, 1, t];
+                    y.extend_from_slice(tail);
+                    feed(&y);
+                }
+            }
             feed(&[131, 109, 255, 255, 255, 255, 1]);
             feed(&[131, 108, 255, 255, 255, 255]);
             feed(&[131, 80, 0, 0, 0, 9, 1, 2, 3]);
@@ -287,6 +310,13 @@ pub fn run_obs(args: &[String]) -> i32 {
             let b2 = if do_borrowed { obs_borrowed(&b) } else { Value::Null };
             if (o2 != *o1 || b2 != *b1) && changed.len() < 20 {
                 changed.push(json!({"id": rec["id"], "bytes": bytes_json(&b[..b.len().min(64)]), "before": o1, "after": o2, "borrowed_before": b1, "borrowed_after": b2}));
+            }
+        }
+        for (b, (o1, b1)) in probes.iter().zip(probe_first.iter()) {
+            let o2 = obs_owned(b);
+            let b2 = if do_borrowed { obs_borrowed(b) } else { Value::Null };
+            if (o2 != *o1 || b2 != *b1) && changed.len() < 25 {
+                changed.push(json!({"id": "nesting probe", "bytes": bytes_json(&b[..b.len().min(24)]), "input_len": b.len(), "before": o1["ok"], "after": o2["ok"], "borrowed_before": b1.get("bor_ok"), "borrowed_after": b2.get("bor_ok")}));
             }
         }
         w.put(&json!({"id": "__history__", "vectors": vectors.len(), "rejected_inputs_fed": rejected, "changed": changed}));
